@@ -320,7 +320,7 @@ def impl_show(res):
 def build_cases(ctx):
     r = ctx.sub_rng('classes')
     quick = ctx.tier == 'quick'
-    n_small, n_big = (40, 10) if quick else (250, 60)
+    n_small, n_big = (80, 16) if quick else (160, 40)
     n_rand = 200 if quick else 1500
     counter = [0]
     classes = []
